@@ -34,7 +34,9 @@ FIXED_IFNAME = "ifname" in _PROPOSED
 RULE = ("utmp files printed from records (every ut_type incl. negative, pid/time over the int32 range, line/user/host of length "
         "0,1,w-1,w with ASCII / non-UTF-8 / ':0' contents, embedded NULs, junk in the other fields) plus raw files with partial "
         "records; mount tables printed from entries (escapes for space/tab/newline/backslash, 'none', '#', non-UTF-8 and multi-byte "
-        "bytes, fields up to 5000 bytes, 0-300 entries, all=True/False, /proc/filesystems drawn from a pool) plus malformed raw tables; "
+        "bytes, fields up to 5000 bytes, 0-300 entries, all=True/False, /proc/filesystems drawn from a pool; tables with both spellings of the "
+        "root device ('rootfs', '/dev/root') in either order with the root-device lookup failing or succeeding through a fake "
+        "<procfs>/partitions, nothing monkeypatched) plus malformed raw tables; "
         "every entry point of _psutil_linux/_psutil_posix with ints {0,+-1,2^31+-1,2^63+-1,2^70,...}, str of length 0,15,16,17,4096, "
         "embedded NUL, lone surrogate, bytes, None, float, lists (setters only on the forked child itself or absent PIDs); "
         "Process.ionice(ioclass, value) through the public API; the live interface list against ioctl/sysfs read independently; "
@@ -54,7 +56,9 @@ TRUSTED = ["correspondence harness props/C17.py + props/_c17_iso.py + props/_c17
            "glibc getutent/getmntent/getifaddrs/CPU_* macros: modelled (getmntent, CPU_SET) or trusted, not verified"]
 ASSUMPTIONS = ["memory behaviour of the compiled code is observed only on the generated runs (sanitizer build); the Coq theorems are "
                "about the model of the decoding logic and of the index/integer arithmetic",
-               "mount entries with device '/dev/root' or 'rootfs' (resolved through the live /sys) and NUL bytes in the mounts file are out of the model",
+               "the root-device lookup (RootFsDeviceFinder) is an oracle of the model: the harness steers it through a fake <procfs>/partitions line for the "
+               "device of '/' (existing node /dev/null = found, missing node = not found); its /sys fallbacks are not exercised; NUL bytes in the "
+               "mounts file are out of the model",
                "live interface comparison asserts timing-free facts only (names, flags, MTU, MAC, addresses)"]
 try:
     from props import _c17_ifshim as _S
@@ -178,6 +182,31 @@ def _mfield(rng, kind):
 
 def _ment(rng):
     return [_hx(_mfield(rng, "dev")), _hx(_mfield(rng, "dir")), _hx(_mfield(rng, "type")), _hx(_mfield(rng, "opts"))]
+
+
+def _rootdev_cases(rng, n_random):
+    """tables with BOTH spellings of the root device ('rootfs / rootfs' and one or more '/dev/root <mp> ext4'), either
+    order, all=True/False, root-device lookup failing / succeeding"""
+    h = lambda b: b.hex()   # noqa: E731
+    rootfs = [h(b"rootfs"), h(b"/"), h(b"rootfs"), h(b"rw")]
+    devroot = [h(b"/dev/root"), h(b"/"), h(b"ext4"), h(b"rw,relatime")]
+    devroot2 = [h(b"/dev/root"), h(b"/mnt/bind"), h(b"ext4"), h(b"ro")]
+    other = [h(b"/dev/sda2"), h(b"/home"), h(b"ext4"), h(b"rw")]
+    proc = [h(b"proc"), h(b"/proc"), h(b"proc"), h(b"rw")]
+    fs = [[True, "rootfs"], [True, "proc"], [False, "ext4"]]
+    out = []
+    for order in ([rootfs, devroot], [devroot, rootfs], [rootfs, proc, devroot, other, devroot2], [devroot2, other, devroot, proc, rootfs],
+                  [devroot, devroot2], [rootfs], [devroot]):
+        for allp in (True, False):
+            for root in ("missing", "found"):
+                out.append({"kind": "mounts", "cls": "mounts-rootdev", "all": allp, "root": root, "fs": fs, "ents": [list(e) for e in order]})
+    pool = [rootfs, devroot, devroot2, other, proc, [h(b"none"), h(b"/sys"), h(b"sysfs"), h(b"rw")], [h(b"rootfs"), h(b"/old"), h(b"ext4"), h(b"rw")],
+            [h(b"/dev/rootx"), h(b"/x"), h(b"ext4"), h(b"rw")]]
+    for _ in range(n_random):
+        ents = [list(rng.choice(pool)) for _ in range(rng.randint(2, 7))]
+        out.append({"kind": "mounts", "cls": "mounts-rootdev", "all": rng.random() < 0.5, "root": rng.choice(["found", "missing"]),
+                    "fs": [[rng.random() < 0.5, "rootfs"], [True, "proc"], [False, "ext4"]], "ents": ents})
+    return out
 
 
 def _esc(b):
@@ -531,7 +560,10 @@ def gen_cases(rng, tier):
             cls = "mounts-hashdev"
         elif any(not _is_utf8(bytes.fromhex(e[2])) or not _is_utf8(bytes.fromhex(e[3])) for e in ents):
             cls = "mounts-nonutf8"
-        cases.append({"kind": "mounts", "cls": cls, "all": allp, "fs": fs, "ents": ents})
+        if any(bytes.fromhex(e[0]) in (b"/dev/root", b"rootfs") for e in ents) and cls in ("mounts", "mounts-all"):
+            cls = "mounts-rootdev"
+        cases.append({"kind": "mounts", "cls": cls, "all": allp, "root": rng.choice(["found", "missing"]), "fs": fs, "ents": ents})
+    cases.extend(_rootdev_cases(rng, {"quick": 8, "thorough": 60, "search": 12}[tier]))
     raw_fs = [b"", b"\text4\nnodev\tproc\n", b"nodev\tzfs\n\tvfat\n", b"ext4\n", b"\n\n\text4\n", b"nodev\n", b"nodevice\text4\n",
               b"  nodev\tzfs  \n\t ext4 \n", b"\text4", b"nodev\tzfs\textra\n"]
     raw_mnt = [b"", b"\n", b"#comment\n", b"/dev/sda1 / ext4 rw 0 0\n", b"/dev/sda1 / ext4 rw 0 0", b"  \t/dev/sda1\t\t/a   ext4 rw  \t\n#c\n\n  \n/dev/x\n/dev/y /m\n",
@@ -539,12 +571,12 @@ def gen_cases(rng, tier):
                b"/dev/a /b\\", b"/dev/a /b\\0", b"/dev/a /b\\04", b"\\040 \\011 \\012 \\134\n", b"none /proc proc rw 0 0\nnone /sys sysfs rw 0 0\n",
                b"/dev/sda1 /a\0b ext4 rw 0 0\n/dev/sdb /b ext4 rw 0 0\n", b" \n\t\n/dev/z /z ext4 rw\n", b"/dev/sda1 /" + b"x" * 4080 + b" ext4 rw 0 0\n/dev/sdb /b ext4 rw 0 0\n",
                b"/dev/sda1 /" + b"x" * 4090 + b"\n", b"/dev/sda1 /m ext4 " + b"o" * 4077 + b"\n/dev/b /b ext4 rw\n", b"/dev/sda1 /m ext4 " + b"o" * 4076 + b"\n/dev/b /b ext4 rw\n",
-               b"/dev/sda1 /m vfat rw\r\n", b"/dev/a /a ext4 r\xffw 0 0\n", b"/dev/\xff /\xfe ext4 rw 0 0\n", b"x" * 9000, b"/dev/a\t/a\text4\trw\t0\t0\n" * 3]
+               b"/dev/sda1 /m vfat rw\r\n", b"rootfs / rootfs rw 0 0\n/dev/root / ext4 rw 0 0\n", b"/dev/root / ext4 rw 0 0\nrootfs / rootfs rw 0 0\n/dev/root /b ext4 ro 0 0\n", b"/dev/a /a ext4 r\xffw 0 0\n", b"/dev/\xff /\xfe ext4 rw 0 0\n", b"x" * 9000, b"/dev/a\t/a\text4\trw\t0\t0\n" * 3]
     for _ in range(n_mnt // 3):
         m = rng.choice(raw_mnt)
         if rng.random() < 0.3:
             m = m + rng.choice(raw_mnt)
-        cases.append({"kind": "mounts_raw", "cls": "mounts-raw" if m else "trivial", "all": rng.random() < 0.5,
+        cases.append({"kind": "mounts_raw", "cls": "mounts-raw" if m else "trivial", "all": rng.random() < 0.5, "root": rng.choice(["found", "missing"]),
                       "filesystems": rng.choice(raw_fs).hex(), "mounts": m.hex()})
     # ---- arguments
     for hi, lo, dup in [(0, 0, 255), (0, 1000, 1), (0, 10, 0), (65535, 65535, 255), (32767, 65535, 1), (32768, 0, 1), (1, 34464, 1), (0, 1000, 7)]:
@@ -564,6 +596,13 @@ def gen_cases(rng, tier):
 
 
 # ------------------------------------------------------------------ Coq terms
+ROOT_FOUND = b"/dev/null"     # fake <procfs>/partitions names "null" for the device of "/": the lookup succeeds with /dev/null
+
+
+def _root_term(case):
+    return "(Some %s)" % G.by(ROOT_FOUND) if case.get("root") == "found" else "None"
+
+
 def _hb(h):
     return G.by(bytes.fromhex(h))
 
@@ -601,9 +640,9 @@ def coq_term(case):
     if k == "mounts":
         fs = G.lst(["(Build_kfs %s %s)" % (G.bo(nd), G.by(nm)) for nd, nm in case["fs"]])
         es = G.lst(["(Build_ment %s %s %s %s)" % tuple(_hb(x) for x in e) for e in case["ents"]])
-        return "run_mounts %s %s %s %s" % (G.bo(FIXED_MNT_UTF8), G.bo(case["all"]), fs, es)
+        return "run_mounts %s %s %s %s %s" % (G.bo(FIXED_MNT_UTF8), G.bo(case["all"]), _root_term(case), fs, es)
     if k == "mounts_raw":
-        return "run_mounts_raw %s %s %s %s" % (G.bo(FIXED_MNT_UTF8), G.bo(case["all"]), _hb(case["filesystems"]), _hb(case["mounts"]))
+        return "run_mounts_raw %s %s %s %s %s" % (G.bo(FIXED_MNT_UTF8), G.bo(case["all"]), _root_term(case), _hb(case["filesystems"]), _hb(case["mounts"]))
     if k == "entry":
         return "run_entry %s %s %s" % (G.bo(FIXED_IOPRIO), ENTRY_COQ[case["ep"]], G.lst([_pyval(a) for a in case["args"]]))
     if k == "ionice":
@@ -932,6 +971,15 @@ def impl_run(case, coq, env):
         mpath = os.path.join(root, "self", "mounts")
         with open(mpath, "wb") as f:
             f.write(mb)
+        dev = os.stat("/").st_dev
+        mj, mn = os.major(dev), os.minor(dev)
+        with open(os.path.join(root, "partitions"), "w") as f:
+            # RootFsDeviceFinder.ask_proc_partitions(): two header lines, then "major minor #blocks name"; the lookup
+            # succeeds iff the named node exists under /dev.  Decoy lines carry other numbers.
+            f.write("major minor  #blocks  name\n\n")
+            f.write("%4d %7d %10d zero\n" % (mj + 1, mn, 1024))
+            f.write("%4d %7d %10d %s\n" % (mj, mn, 4096, "null" if case.get("root") == "found" else "c17-no-such-node"))
+            f.write("%4d %7d %10d full\n" % (mj, mn + 1, 2048))
 
         def call():
             psutil.PROCFS_PATH = root
@@ -1216,7 +1264,8 @@ MANIFEST = {
             "outside 0..3 and hands class*2^13+data to the kernel; the ethtool speed is defined for every answer; mount-table decoding "
             "round-trips the kernel's escapes for every entry; for every printed /proc/filesystems and every mounts table "
             "disk_partitions() keeps exactly the entries with a device and a disk-backed type (all=True: every entry, whatever bytes it "
-            "contains), for lines up to 4095 bytes; above that exactly the first 4095 bytes are parsed (boundary theorems; known finding), "
+            "contains), '/dev/root' and 'rootfs' shown as the looked-up root device or as they are when the lookup fails, each row a function "
+            "of its own entry and the lookup result only (independent of the other entries and of their order), for lines up to 4095 bytes; above that exactly the first 4095 bytes are parsed (boundary theorems; known finding), "
             "a '#' in the device name comes back as \\043 and an empty device name shifts the fields (known findings, refuted theorems); "
             "an interface name that is not UTF-8 makes net_if_addrs()/net_if_stats() raise (known finding with a proposed repair, proved "
             "total for the repaired variant). The repaired defects are kept as refuted theorems about the legacy variants "
